@@ -24,5 +24,59 @@ package types
 //@   ensures result <==> subsetAttrs(attr, that)
 
 //@ property C08 := (Attribute).SubsetOf#*, AttributesSubsetOf#*, (Attributes).SubsetOf#*
+// ---- C12: resource arithmetic never goes negative and never touches its operands ----
+//@ func (ResourceValue).add
+//@   ensures result1 == nil <==> m.Val + rhs.Val >= 0
+//@   ensures result1 == nil ==> result0.Val == m.Val + rhs.Val
+//@ func (ResourceValue).sub
+//@   ensures result1 == nil <==> m.Val - rhs.Val >= 0
+//@   ensures result1 == nil ==> result0.Val == m.Val - rhs.Val
+//@ func (ResourceValue).le
+//@   ensures result <==> m.Val <= rhs.Val
+//@ func (ResourceValue).equals
+//@   ensures result <==> m.Val == rhs.Val
+
+//@ func (*CPU).add
+//@   modifies m.Units
+//@   ensures typeis(other, *CPU) && result == nil ==> m.Units.Val == old(m.Units.Val) + old(unbox(other, *CPU).Units.Val) && m.Units.Val >= 0
+//@   ensures result != nil || !typeis(other, *CPU) ==> m.Units == old(m.Units)
+//@ func (*CPU).sub
+//@   modifies m.Units
+//@   ensures typeis(other, *CPU) && result == nil ==> m.Units.Val == old(m.Units.Val) - old(unbox(other, *CPU).Units.Val) && m.Units.Val >= 0
+//@   ensures result != nil || !typeis(other, *CPU) ==> m.Units == old(m.Units)
+//@ func (*Memory).add
+//@   modifies m.Quantity
+//@   ensures typeis(other, *Memory) && result == nil ==> m.Quantity.Val == old(m.Quantity.Val) + old(unbox(other, *Memory).Quantity.Val) && m.Quantity.Val >= 0
+//@   ensures result != nil || !typeis(other, *Memory) ==> m.Quantity == old(m.Quantity)
+//@ func (*Memory).sub
+//@   modifies m.Quantity
+//@   ensures typeis(other, *Memory) && result == nil ==> m.Quantity.Val == old(m.Quantity.Val) - old(unbox(other, *Memory).Quantity.Val) && m.Quantity.Val >= 0
+//@   ensures result != nil || !typeis(other, *Memory) ==> m.Quantity == old(m.Quantity)
+//@ func (*Storage).add
+//@   modifies m.Quantity
+//@   ensures typeis(other, *Storage) && result == nil ==> m.Quantity.Val == old(m.Quantity.Val) + old(unbox(other, *Storage).Quantity.Val) && m.Quantity.Val >= 0
+//@   ensures result != nil || !typeis(other, *Storage) ==> m.Quantity == old(m.Quantity)
+//@ func (*Storage).sub
+//@   modifies m.Quantity
+//@   ensures typeis(other, *Storage) && result == nil ==> m.Quantity.Val == old(m.Quantity.Val) - old(unbox(other, *Storage).Quantity.Val) && m.Quantity.Val >= 0
+//@   ensures result != nil || !typeis(other, *Storage) ==> m.Quantity == old(m.Quantity)
+
+// Add / Sub build their result in fresh objects: nothing reachable from either operand is written
+// (no `modifies` clause = empty frame), so a read-only status fold reports the same amounts every time
+//@ func (ResourceUnits).Add
+//@   ensures [cpu] result1 == nil && m.CPU != nil && rhs.CPU != nil ==> result0.CPU != nil && fresh(result0.CPU) && result0.CPU.Units.Val == m.CPU.Units.Val + rhs.CPU.Units.Val
+//@   ensures [cpu0] result1 == nil && m.CPU == nil && rhs.CPU != nil ==> result0.CPU != nil && fresh(result0.CPU) && result0.CPU.Units.Val == rhs.CPU.Units.Val
+//@   ensures [mem] result1 == nil && m.Memory != nil && rhs.Memory != nil ==> result0.Memory != nil && fresh(result0.Memory) && result0.Memory.Quantity.Val == m.Memory.Quantity.Val + rhs.Memory.Quantity.Val
+//@   ensures [mem0] result1 == nil && m.Memory == nil && rhs.Memory != nil ==> result0.Memory != nil && fresh(result0.Memory) && result0.Memory.Quantity.Val == rhs.Memory.Quantity.Val
+//@   ensures [sto] result1 == nil && m.Storage != nil && rhs.Storage != nil ==> result0.Storage != nil && fresh(result0.Storage) && result0.Storage.Quantity.Val == m.Storage.Quantity.Val + rhs.Storage.Quantity.Val
+//@   ensures [sto0] result1 == nil && m.Storage == nil && rhs.Storage != nil ==> result0.Storage != nil && fresh(result0.Storage) && result0.Storage.Quantity.Val == rhs.Storage.Quantity.Val
+//@   ensures [nonneg] result1 == nil && m.CPU != nil && rhs.CPU != nil ==> result0.CPU.Units.Val >= 0
+//@ func (ResourceUnits).Sub
+//@   ensures [cpu] result1 == nil && rhs.CPU != nil ==> result0.CPU != nil && fresh(result0.CPU) && result0.CPU.Units.Val == m.CPU.Units.Val - rhs.CPU.Units.Val && result0.CPU.Units.Val >= 0
+//@   ensures [mem] result1 == nil && rhs.Memory != nil ==> result0.Memory != nil && fresh(result0.Memory) && result0.Memory.Quantity.Val == m.Memory.Quantity.Val - rhs.Memory.Quantity.Val && result0.Memory.Quantity.Val >= 0
+//@   ensures [sto] result1 == nil && rhs.Storage != nil ==> result0.Storage != nil && fresh(result0.Storage) && result0.Storage.Quantity.Val == m.Storage.Quantity.Val - rhs.Storage.Quantity.Val && result0.Storage.Quantity.Val >= 0
+
+//@ property C12 := (ResourceValue).add#*, (ResourceValue).sub#*, (ResourceValue).le#*, (ResourceValue).equals#*, (*CPU).add#*, (*CPU).sub#*,
+//@                 (*Memory).add#*, (*Memory).sub#*, (*Storage).add#*, (*Storage).sub#*, (ResourceUnits).Add#*, (ResourceUnits).Sub#*
 //@ property C19 := (ResourceValue).Value#*
 //@ property C12 := (ResourceValue).Value#*
